@@ -42,6 +42,11 @@ func (p *Path) load(ptr value) value {
 			panic(p.rtPanic("invalid memory address or nil pointer dereference"))
 		}
 		if x.abs != nil {
+			if x.idx.isConst() && x.abs.known != nil {
+				if v, ok := x.abs.known[int(x.idx.val)]; ok {
+					return v
+				}
+			}
 			p.fresh++
 			return p.tt.Var(fmt.Sprintf("abs!%s!%d", x.abs.name, p.fresh), 8)
 		}
@@ -88,6 +93,14 @@ func (p *Path) store(ptr value, v value) {
 			panic(p.rtPanic("invalid memory address or nil pointer dereference"))
 		}
 		if x.abs != nil {
+			if x.idx.isConst() {
+				if x.abs.known == nil {
+					x.abs.known = map[int]value{}
+				}
+				x.abs.known[int(x.idx.val)] = v
+			} else {
+				x.abs.known = nil // a store at an unknown position may overwrite any known byte
+			}
 			return
 		}
 		if x.idx.isConst() {
@@ -359,6 +372,8 @@ func (p *Path) copyOp(dstv, srcv value) value {
 			if dst.abs == nil && !dst.isNil() {
 				// destination content becomes unknown in [0,n): havoc
 				p.havoc(dst, n)
+			} else if dst.abs != nil {
+				dst.abs.forget(dst.off)
 			}
 			return n
 		}
@@ -483,15 +498,71 @@ func (p *Path) appendAbstract(s, t *sliceV) value {
 		fits := p.tt.Cmp(OpSle, newLen, s.cap)
 		if p.branch(fits) {
 			if s.abs == nil {
-				p.unsupportedf("append of abstract data into concrete slice")
+				// concrete destination, abstract source: continue with an abstract array that remembers the
+				// destination's (concrete-position) bytes
+				a := p.absFromConcrete(s)
+				return &sliceV{abs: a, off: p.i64(0), len: newLen, cap: s.cap, nonNil: true}
+			}
+			// appended bytes known? (concrete source of concrete length at a concrete position)
+			if t.abs == nil {
+				if so, ok1 := concInt(s.off); ok1 {
+					if sl, ok2 := concInt(s.len); ok2 {
+						if tl, ok3 := concInt(t.len); ok3 {
+							if s.abs.known == nil {
+								s.abs.known = map[int]value{}
+							}
+							src := p.elems(t, "append source")
+							for i := 0; i < int(tl); i++ {
+								s.abs.known[int(so+sl)+i] = src[i]
+							}
+						}
+					}
+				}
+			} else {
+				s.abs.forget(p.tt.Bin(OpAdd, s.off, s.len))
 			}
 			return &sliceV{abs: s.abs, back: s.back, off: s.off, len: newLen, cap: s.cap, nonNil: true}
 		}
 	}
+	if s.abs == nil && !s.isNil() {
+		a := p.absFromConcrete(s)
+		return &sliceV{abs: a, off: p.i64(0), len: newLen, cap: newLen, nonNil: true}
+	}
 	// grows: new abstract array of symbolic size is not representable; use a large fresh abstract array
 	p.fresh++
 	a := &absArr{n: 1 << 30, name: fmt.Sprintf("grown%d", p.fresh)}
+	if s.abs != nil && s.abs.known != nil {
+		// the reallocated array starts with a copy of the old contents
+		if so, ok1 := concInt(s.off); ok1 {
+			if sl, ok2 := concInt(s.len); ok2 {
+				a.known = map[int]value{}
+				for i := 0; i < int(sl); i++ {
+					if v, ok := s.abs.known[int(so)+i]; ok {
+						a.known[i] = v
+					}
+				}
+				if t.abs == nil {
+					if tl, ok3 := concInt(t.len); ok3 {
+						src := p.elems(t, "append source")
+						for i := 0; i < int(tl); i++ {
+							a.known[int(sl)+i] = src[i]
+						}
+					}
+				}
+			}
+		}
+	}
 	return &sliceV{abs: a, off: p.i64(0), len: newLen, cap: newLen, nonNil: true}
+}
+
+// absFromConcrete makes an abstract array that remembers the bytes of a concrete slice (positions 0..len-1).
+func (p *Path) absFromConcrete(s *sliceV) *absArr {
+	p.fresh++
+	a := &absArr{n: 1 << 30, name: fmt.Sprintf("mixed%d", p.fresh), known: map[int]value{}}
+	for i, e := range p.elems(s, "append destination") {
+		a.known[i] = e
+	}
+	return a
 }
 
 func (p *Path) unsupportedf(f string, a ...interface{}) {
